@@ -49,6 +49,7 @@ import Bmc.Proofs.GenEnc.V2Session
 #print axioms Bmc.Proofs.ApiWrappers.api_wrappers
 #print axioms Bmc.Proofs.ApiWrappers.api_other_senders
 #print axioms Bmc.Proofs.ApiWrappers.api_cmd_constructors
+#print axioms Bmc.Proofs.ApiWrappers.validate_response
 #print axioms Bmc.Proofs.GenEnc.translated_ok
 #print axioms Bmc.Proofs.GenEnc.uninterpreted_ok
 #print axioms Bmc.Proofs.GenEnc.GetSensorReadingReq_enc_eq
